@@ -11,6 +11,7 @@ LEVEL = "proof"
 def run(chk):
     chk.trusted_base = common.BASE_TRUST + [
         "translator translate/c2gallina.py (clang JSON AST -> Gallina) for get_jumbo_payload_size, ovni_payload_size, ovni_ev_size and the constants (sizeof, OVNI_EV_JUMBO, OVNI_MAX_EV_BUF, OVNI_STREAM_VERSION), regenerated from the tree under test on every run",
+        "translator unit translate/units/rtbuf.py (stage-C core _stagec.py + the wrappers listed in its header) for flush_evbuf, ovni_clock_now, ovni_ev_set_clock/get_clock/set_mcv, ovni_payload_add, add_flush_events, ovni_ev_add, ovni_ev_add_jumbo, ovni_flush, ovni_ev_emit, ovni_ev_jumbo_emit, ovni_mark_push/pop/set, regenerated on every run and proved equal to the hand model RtBufDefs (fx = true); hand-written underneath (coq/Rt/RtBufPre.v, Rt/RtBufApiDefs.v): write_evbuf = write all bytes or die, memcpy with bounds on evbuf / the payload union / read-only data with struct ovni_ev as source = CodecDefs.struct_bytes (packed, little endian), clock_monotonic_now = next clock input, die = abort, struct ovni_ev x = {0}, atomic_load(&rproc.st) = ST_READY, the caller programs api_call, ovni_thread_init/ovni_thread_free stand-ins",
         "hand model coq/Rt/RtBufDefs.v of ovni_ev_add/ovni_ev_add_jumbo/add_flush_events/ovni_flush/flush_evbuf/write_stream_header/ovni_payload_add/ovni_mark_* tied by byte-for-byte comparison of stream.obs with the extracted model on generated op scripts",
         "harness/rtbuf_drv.c (clock_gettime interposed in the driver; one forked child per script) and the OVNI_VERIF_EVBUF hook of /repo",
         "extraction (ExtrOcamlBasic only) + OCaml 4.13 + oracle/rtbuf_drv.ml (script syntax, blob expansion, md5)",
